@@ -12,6 +12,7 @@
     (`written_of_marked`) — and what one insertion in front of such an entry destroys (`dow_breaks`).
 -/
 import ShelxModel.C04
+import ShelxModel.Extracted.C04Scheme
 
 namespace Shelx.C04
 
@@ -209,6 +210,15 @@ theorem load_clean (src : List (Src τ)) : Clean (load src) := by
     | nil => intro a h; exact h
     | cons l r ih => intro a h; exact ih _ (loadLine_dow a l h)
   exact this {} rfl
+
+/-- **Tie to the source** (table regenerated from `_parse_cards` / `write_shelx_file` on every run): the parser
+    blanks the entry of every absorbed SYMM/SFAC/FVAR line in place and records no index, no function of the
+    package adds to `delete_on_write`, and the writer skips `''` — i.e. the code uses the scheme that `load`
+    implements, so `load_clean` is a statement about the code as it is now. (With the absolute-index scheme
+    this `decide` fails: `absorb` then reads `("SFAC", false, true)`.) -/
+theorem extracted_scheme_is_load :
+    Shelx.Extracted.C04.absorb = [("SYMM", true, false), ("SFAC", true, false), ("FVAR", true, false)] ∧
+    Shelx.Extracted.C04.dowWriters = [] ∧ Shelx.Extracted.C04.writerSkipsEmpty = true := by decide
 
 /-- the property for every file the repaired parser produces and every history of edits -/
 theorem file_history_refines (src : List (Src τ)) (ops : List (Op τ)) :
